@@ -4,6 +4,7 @@ import (
 	"bytes"
 	"encoding/gob"
 	"fmt"
+	"strings"
 
 	"github.com/valyala/fastjson"
 )
@@ -66,6 +67,28 @@ func LinkNew(id ID, typ ActivityVocabularyType) *Link {
 // MentionNew initializes a new Mention
 func MentionNew(id ID) *Mention {
 	return &Mention{ID: id, Type: MentionType}
+}
+
+// Equals verifies if our receiver Link is equal with the "with" Item
+func (l Link) Equals(with Item) bool {
+	if IsNil(with) || !IsLink(with) {
+		return false
+	}
+	result := false
+	_ = OnLink(with, func(w *Link) error {
+		result = l.ID.Equals(w.ID, true) &&
+			strings.EqualFold(string(l.Type), string(w.Type)) &&
+			l.Href.Equals(w.Href, false) &&
+			l.Rel.Equals(w.Rel, false) &&
+			l.MediaType == w.MediaType &&
+			l.HrefLang == w.HrefLang &&
+			l.Height == w.Height &&
+			l.Width == w.Width &&
+			l.Name.Equals(w.Name) &&
+			ItemsEqual(l.Preview, w.Preview)
+		return nil
+	})
+	return result
 }
 
 // IsLink validates if current Link is a Link
